@@ -180,3 +180,71 @@ Proof.
     intros lk' Hlk. exact Hlk.
 Qed.
 Print Assumptions anonymize_value_never_raises.
+
+(* ------------------------------------------------------------------------------------------------------------------------------
+   replace_matching_item (the whole secrets stage of a line) never raises: every generated line pattern is non-nullable and the groups it reads
+   (the secret, the kept prefix) lie on every path of their pattern, so they have participated in every match (lib/RxGroups.v). *)
+Require Import RxGroups.
+Definition item_ok (it : re * option nat * option nat) : bool :=
+  let '(rx, num, pidx) := it in
+  negb (nullable rx) &&
+  (match num with Some (S n) => always_part (S n) rx | _ => true end) &&
+  (match pidx with Some (S p) => always_part (S p) rx | _ => true end).
+Theorem generated_line_patterns_read_only_participating_groups : forallb (forallb item_ok) PWD_REGEXES = true.
+Proof. vm_compute. reflexivity. Qed.
+
+Lemma group_defined s a b c n r i c0 : In (b, c) (ms s r i c0) -> match n with O => True | S _ => always_part n r = true end -> group s a b c n <> None.
+Proof.
+  intros Hin Hp. destruct n as [|n]; [discriminate|]. unfold group.
+  pose proof (always_part_sound s r (S n) Hp i c0 b c Hin) as Hh. unfold has in Hh.
+  destruct (cap_lookup c (S n)) as [[x y]|]; [discriminate|contradiction].
+Qed.
+
+Definition ok3 (r : str * lookup_t * bool) : Prop := table_bytes (snd (fst r)).
+Lemma apply_item_ok orc reserved salt it line lookup : item_ok it = true -> table_bytes orc -> table_bytes lookup ->
+  match apply_item orc reserved salt it line lookup with None => True | Some r => okres ok3 r end.
+Proof.
+  intros Hit Ho Hl. unfold apply_item. destruct it as [[rx num] pidx]. cbn [item_ok] in Hit.
+  apply andb_prop in Hit as [Hit Hp]. apply andb_prop in Hit as [Hnul Hn]. apply negb_true_iff in Hnul.
+  destruct (search line rx) as [[[a b] c]|] eqn:Es; [|exact I].
+  assert (Hin : In (b, c) (ms line rx a [])).
+  { unfold search in Es. apply search_from_ge in Es as [_ Em]. apply match_at_in. exact Em. }
+  destruct num as [n|].
+  - assert (Hpre : exists pre, match pidx with Some p => match group line a b c p with Some t => Some t | None => None end | None => Some [] end = Some pre).
+    { destruct pidx as [p|]; [|eexists; reflexivity].
+      destruct (group line a b c p) eqn:Eg; [eexists; reflexivity|]. exfalso. revert Eg. eapply group_defined; [exact Hin|]. destruct p; [exact I|exact Hp]. }
+    destruct Hpre as (pre & ->).
+    destruct (group line a b c n) as [secret|] eqn:Eg.
+    + apply (okres_bind (fun r => table_bytes (snd r))); [apply anonymize_value_never_raises; assumption|].
+      intros [anon lk'] Hlk. unfold sub_fn. rewrite Hnul. cbn [okres ok3 fst snd]. destruct (sub_loop _ _ _ _ _ _). exact Hlk.
+    + exfalso. revert Eg. eapply group_defined; [exact Hin|]. destruct n; [exact I|exact Hn].
+  - unfold sub_fn. rewrite Hnul. destruct (sub_loop _ _ _ _ _ _). exact Hl.
+Qed.
+
+Lemma apply_group_ok orc reserved salt : table_bytes orc -> forall grp line lookup found, forallb item_ok grp = true -> table_bytes lookup ->
+  okres ok3 (apply_group orc reserved salt grp line lookup found).
+Proof.
+  intros Ho. induction grp as [|it grp IH]; intros line lookup found Hg Hl; cbn [apply_group]; [exact Hl|].
+  cbn [forallb] in Hg. apply andb_prop in Hg as [Hit Hg].
+  pose proof (apply_item_ok orc reserved salt it line lookup Hit Ho Hl) as Hi.
+  destruct (apply_item orc reserved salt it line lookup) as [r|]; [|apply IH; assumption].
+  apply (okres_bind ok3); [exact Hi|]. intros [[l lk] stop] Hlk. destruct stop; [exact Hlk|]. apply IH; assumption.
+Qed.
+Lemma apply_groups_ok orc reserved salt : table_bytes orc -> forall groups line lookup, forallb (forallb item_ok) groups = true -> table_bytes lookup ->
+  okres (fun r => table_bytes (snd r)) (apply_groups orc reserved salt groups line lookup).
+Proof.
+  intros Ho. induction groups as [|g groups IH]; intros line lookup Hg Hl; cbn [apply_groups]; [exact Hl|].
+  cbn [forallb] in Hg. apply andb_prop in Hg as [Hg1 Hg2].
+  apply (okres_bind ok3); [apply apply_group_ok; assumption|]. intros [[l lk] found] Hlk. destruct found; [exact Hlk|]. apply IH; assumption.
+Qed.
+
+Theorem replace_matching_item_never_raises : forall orc reserved salt line lookup,
+  table_bytes orc -> table_bytes lookup ->
+  okres (fun r => table_bytes (snd r)) (replace_matching_item orc reserved salt line lookup).
+Proof.
+  intros orc reserved salt line lookup Ho Hl. unfold replace_matching_item.
+  destruct (split_line line) as [[leading words] trailing]. destruct (extract_enclosing _ leading trailing) as [[leading' output_line] trailing'].
+  apply (okres_bind (fun r => table_bytes (snd r))); [apply apply_groups_ok; [exact Ho|exact generated_line_patterns_read_only_participating_groups|exact Hl]|].
+  intros [l lk] Hlk. exact Hlk.
+Qed.
+Print Assumptions replace_matching_item_never_raises.
